@@ -496,7 +496,9 @@ fn colliding(cat: &Catalogue, ty: &Ty, d: &Doc, depth: usize) -> bool {
 
 pub fn run_c15(e: &Engine) -> i32 {
     let rec = Recorder::new("C15", e.tier);
-    let roots: Vec<usize> = (0..e.cat.roots.len()).collect();
+    // (the 70-field structs of group B6 are left to the other checks: the 24-field ones of B5
+    // already exercise large-object orders)
+    let roots: Vec<usize> = (0..e.cat.roots.len()).filter(|i| e.cat.roots[*i].group != "B6").collect();
     let (max_members, faults, cap) = if e.tier == Tier::Quick { (4usize, 1usize, 600usize) } else { (5, 2, 3000) };
     let rich = e.tier == Tier::Thorough;
     let big_family = AtomicUsize::new(0);
